@@ -1195,6 +1195,110 @@ fn wide_alphabet_case(n: usize, m: usize) -> Outcome {
     o
 }
 
+/// C13 scale specifications: states with many transitions (sorting / searching code paths that differ by
+/// size, comparators that are only partial orders on overlapping labels) and automata with many states
+/// (state ids that agree modulo 64 / 256: bit sets and truncated ids), judged like every other case.
+pub fn enumerate_c13(_thorough: bool, part: usize, parts: usize, sink: &mut crate::runner::EnumSink) {
+    use crate::spec::Call;
+    let mut specs: Vec<(Spec, String)> = Vec::new();
+    // (a) one state with k single-character transitions, optionally one more label that overlaps some of
+    // them with a different target, inserted at the front / middle / end, in three orders of the rest
+    for &k in &[5usize, 21, 22, 40, 100] {
+        for order in 0..(if k > 20 { 19 } else { 3 }) {
+            for conflict in [None, Some((0usize, 2usize)), Some((k / 2, 2)), Some((k, 2)), Some((0, k / 4 + 2)), Some((k / 2, k / 4 + 2)), Some((2 * k / 3, k / 2)), Some((k, k / 4 + 2))] {
+                let mut trans: Vec<Call> = (0..k).map(|j| Call::Trans(0, (2 * j as u32, 2 * j as u32), 1 + (j as u32 % 3))).collect();
+                match order {
+                    1 => trans.reverse(),
+                    2 => {
+                        // interleave the two halves
+                        let (a, b) = trans.split_at(k / 2);
+                        let mut v = Vec::new();
+                        for i in 0..b.len() {
+                            v.push(b[i].clone());
+                            if i < a.len() {
+                                v.push(a[i].clone());
+                            }
+                        }
+                        trans = v;
+                    }
+                    0 => {}
+                    _ => {
+                        // deterministic shuffle number `order` (linear congruential)
+                        let mut x: u64 = 0x9E37_79B9 * (order as u64 + 1) + k as u64;
+                        for i in (1..trans.len()).rev() {
+                            x = x.wrapping_mul(6364136223846793005).wrapping_add(1442695040888963407);
+                            let j = (x >> 33) as usize % (i + 1);
+                            trans.swap(i, j);
+                        }
+                    }
+                }
+                if let Some((pos, width)) = conflict {
+                    // overlaps `width`+1 of the single-character labels (targets 1..3, so they differ from 4)
+                    let c = (k / 3) as u32;
+                    let hi = (2 * c + 2 * width as u32).min(2 * (k as u32 - 1));
+                    trans.insert(pos.min(trans.len()), Call::Trans(0, (2 * c, hi), 4));
+                }
+                let mut calls = trans;
+                calls.push(Call::Default(0, 4));
+                for q in 1..=4u32 {
+                    calls.push(Call::Default(q, q));
+                }
+                calls.push(Call::Final(2));
+                let what = format!("state 0 with {} single-character transitions ({} order){}", k, if order < 3 { ["ascending", "descending", "interleaved"][order].to_string() } else { format!("shuffle #{}", order) }, match conflict {
+                    Some((pos, width)) => format!(" and a conflicting label over {} of them given as call number {}", width + 1, pos),
+                    None => String::new(),
+                });
+                specs.push((Spec { init: 0, calls }, what));
+            }
+        }
+    }
+    // (b) n states in a cycle of defaults; state 0 has no default and its labels tile the alphabet with
+    // targets whose ids agree modulo 64 (and modulo 256 for the larger ones)
+    for &(n, ref targets) in &[(70u32, vec![1u32, 65]), (140, vec![2, 66, 130]), (300, vec![3, 259]), (600, vec![5, 261, 517]), (70, vec![1, 2])] {
+        let mut calls: Vec<Call> = Vec::new();
+        for i in 0..n {
+            calls.push(Call::Default(i, i)); // first mention in index order: builder ids = labels
+        }
+        for i in 1..n {
+            calls.push(Call::Default(i, (i + 1) % n));
+        }
+        // state 0: replace the provisional default by a full tiling? A declared default cannot be withdrawn,
+        // so state 0 is a fresh label n (the initial state), mentioned last
+        let init = n;
+        let cuts: Vec<u32> = (0..targets.len() as u32).map(|j| j * 100).collect();
+        for (j, &tg) in targets.iter().enumerate() {
+            let lo = cuts[j];
+            let hi = if j + 1 < targets.len() { cuts[j + 1] - 1 } else { MAX };
+            calls.push(Call::Trans(init, (lo, hi), tg));
+        }
+        calls.push(Call::Final(targets[targets.len() - 1]));
+        let what = format!("{} states in a cycle of defaults plus an initial state without default whose labels tile the alphabet with targets {:?}", n, targets);
+        specs.push((Spec { init, calls }, what));
+    }
+    for (idx, (spec, what)) in specs.iter().enumerate() {
+        if idx % parts != part {
+            continue;
+        }
+        let mut o = Outcome::default();
+        match crate::runner::on_user_stack(|| spec.build()) {
+            Ok(res) => {
+                judge_build(spec, res, "build", &mut o);
+            }
+            Err(msg) => o.fail("C13/build-panics", format!("build panicked: {}", msg)),
+        }
+        for f in o.fails.iter_mut() {
+            f.msg = format!("{}: {}", what, f.msg);
+        }
+        sink.case(&o, true, || format!("scale specification: {}", what));
+        if sink.failed() {
+            return;
+        }
+    }
+    if part == 0 {
+        sink.stats.exhaustive_spaces.push("scale specifications: one state with 5 / 21 / 22 / 40 / 100 single-character transitions in ascending / descending / interleaved call order and 16 shuffles, without and with a conflicting wider label given first / in the middle / last; 70 - 600 states with an initial state whose successors have ids that agree modulo 64 or 256".to_string());
+    }
+}
+
 pub fn enumerate_c14(_thorough: bool, part: usize, parts: usize, sink: &mut crate::runner::EnumSink) {
     // (chain length, unreachable states, also check the views); the views are quadratic in the harness
     let cases: [(usize, usize, bool); 7] = [(1, 0, true), (2, 3, true), (40, 7, true), (700, 300, true), (70_000, 66_000, false), (400_000, 5, false), (1_000_000, 5, false)];
